@@ -14,8 +14,8 @@ from vf.common import MachineryError
 
 PROP = "C18"
 RESERVED = ("_source", "_classification", "_generated", "_version")
-TBL = {"ta": "select/from", "tb": "Tb/x", "tc": "sqlitex/history"}
-TABLE_OF = {"A": "ta", "Aplus": "ta", "Aplus2": "ta", "Aalt": "ta", "B": "tb", "C": "tc"}
+TBL = {"ta": "select/from", "tb": "Tb/x", "tc": "sqlitex/history", "tr": "rw/t"}
+TABLE_OF = {"A": "ta", "Aplus": "ta", "Aplus2": "ta", "Aalt": "ta", "B": "tb", "C": "tc", "R": "tr"}
 
 
 def descs():
@@ -26,6 +26,8 @@ def descs():
         "Aplus": RecordDescriptor("select/from", [("string", "a"), ("varint", "n"), ("float", "extra")]),
         "Aplus2": RecordDescriptor("select/from", [("string", "a"), ("varint", "n"), ("float", "extra"), ("string", "extra2")]),
         "C": RecordDescriptor("sqlitex/history", [("string", "q")]),
+        # a field literally called `rowid`: a valid field name, and SQLite's name for its implicit row id
+        "R": RecordDescriptor("rw/t", [("varint", "rowid"), ("string", "q")]),
         "Aalt": RecordDescriptor("select/from", [("string", "a"), ("string", "alt")]),
         "B": RecordDescriptor("Tb/x", [("string", "q"), ("bytes", "b"), ("datetime", "ts"), ("path", "p"), ("net.ipaddress", "ip")]),
     }
@@ -38,6 +40,13 @@ def value_pool(rnd):
     strs += ["42", "0042", "+31612345678", "3.10", "1e3", " 15", ".5", "-0", "1_000", "0x10", "Infinity", "NaN", "١٢٣"]
     ints = [v for l, v in vc["varint"] if v is None or -(2**63) <= v < 2**63]
     floats = [v for l, v in vc["float"] if v is None or (v == v and abs(v) != float("inf"))]
+    # doubles at the ends of the exponent range with all 17 digits in use: a text detour (str -> SQLite's own text-to-real)
+    # lands on a neighbouring double for some of them
+    floats += [1.829402849984213e-298, 5e-324, 2.2250738585072014e-308, 2.225073858507201e-308, 1.7976931348623157e308, 8.98846567431158e307]
+    import struct
+    for _ in range(60):
+        bits = (rnd.choice([rnd.randint(1, 60), rnd.randint(1990, 2046)]) << 52) | rnd.getrandbits(52) | (rnd.getrandbits(1) << 63)
+        floats.append(struct.unpack(">d", struct.pack(">Q", bits))[0])
     byts = [v for l, v in vc["bytes"] if l != "len65536"]
     dts = [v for l, v in vc["datetime"]]
     paths = [v for l, v in vc["path"] if l not in ("escape",)]
@@ -56,6 +65,8 @@ def make(DESC, d, pool, rnd, rid):
         return DESC[d](c(pool["s"]), c(pool["i"]), c(pool["f"]), c(pool["s"]), **kw)
     if d == "C":
         return DESC[d](c(pool["s"]), **kw)
+    if d == "R":
+        return DESC[d](c([None, 0, -5, 3, 3, 7, 1, 1, 2**40, -(2**63)]), c(pool["s"]), **kw)
     if d == "Aalt":
         return DESC[d](c(pool["s"]), c(pool["s"]), **kw)
     return DESC[d](c(pool["s"]), c(pool["b"]), c(pool["d"]), c(pool["p"]), c(pool["ip"]), **kw)
@@ -69,7 +80,7 @@ def observe_db(obs):
         ccols[t] = [c for c in cols if c not in RESERVED]
         rows = []
         if cols:
-            for r in obs.execute(f'SELECT _source FROM "{q}" ORDER BY rowid').fetchall():
+            for r in obs.execute(f'SELECT _source FROM "{q}" ORDER BY _rowid_').fetchall():
                 try:
                     rows.append(int(r[0]))
                 except Exception:
@@ -138,6 +149,9 @@ def run_history(DESC, hist, tmp, rnd, pool, detail=None):
                 written[TABLE_OF[op[1]]].append((rid, rec))
             elif op[0] == "flush":
                 w.flush()
+            elif op[0] == "reopen":
+                w = SqliteWriter(p, batch_size=batch)        # a new writer session on the same database file
+                closed = False
             else:
                 w.close()
                 closed = True
@@ -206,6 +220,8 @@ def simulate(ctx, n, depth):
                 ops.append(("flush",))
             elif name == "Close":
                 ops.append(("close",))
+            elif name == "Reopen":
+                ops.append(("reopen",))
         if batch is not None and ops:
             if ops[-1][0] != "close":
                 ops.append(("close",))
@@ -217,9 +233,14 @@ def simulate(ctx, n, depth):
 
 def random_hist(rnd, maxlen, maxbatch):
     ops = []
+    sessions = 1
     for _ in range(rnd.randint(1, maxlen)):
         x = rnd.random()
-        ops.append(("flush",) if x < 0.12 else ("write", rnd.choice(["A", "A", "Aplus", "Aplus2", "Aalt", "B", "C"])))
+        if x > 0.95 and sessions < 4:
+            ops += [("close",), ("reopen",)]                 # the next writes go through a new writer on the same file
+            sessions += 1
+            continue
+        ops.append(("flush",) if x < 0.12 else ("write", rnd.choice(["A", "A", "Aplus", "Aplus2", "Aalt", "B", "C", "R"])))
     ops.append(("close",))
     return (rnd.randint(1, maxbatch), ops)
 
@@ -231,8 +252,9 @@ def hist_key(h):
 def run(tier):
     ctx = check.Ctx(PROP, tier)
     thorough = tier == "thorough"
-    ctx.design("Sqlite", "MC_Sqlite.cfg", "exhaustive: 5 descriptors (three share a table and grow by a field each), <=6 writes, batch 1..4, flush/close anywhere",
-               actions=("Write", "Flush", "Close"), workers=8)
+    ctx.design("Sqlite", "MC_Sqlite.cfg", "exhaustive: 6 descriptors (four share a table), <=6 writes, batch 1..4, flush/close anywhere, <=2 writer sessions on the file",
+               actions=("Write", "Flush", "Close", "Reopen"), workers=8)
+    ctx.sensitivity("Sqlite", "MC_Sqlite_dev_SessionSkipsEvolution.cfg", "a later session that does not add columns to an existing table must violate OneColumnPerField", "OneColumnPerField", workers=4)
     if thorough:
         ctx.sensitivity("Sqlite", "MC_Sqlite_dev_CloseNoCommit.cfg", "close without commit must violate ClosedCommitted", "ClosedCommitted", workers=4)
         ctx.sensitivity("Sqlite", "MC_Sqlite_dev_CommitOffByOne.cfg", "batch test off by one must violate AtBoundary", "AtBoundary", workers=4)
@@ -248,6 +270,12 @@ def run(tier):
     base = random_hist(ctx.rnd, 25, 1)[1]
     for b in range(1, 7):
         hists.append((b, base))
+    # the documented corner: a table created by one session has to grow in the next one
+    for order in (["A", "Aplus"], ["Aplus", "A", "Aplus2"], ["A", "Aalt"], ["R", "R"]):
+        ops = []
+        for d in order:
+            ops += [("write", d), ("write", d), ("close",), ("reopen",)]
+        hists.append((2, ops[:-1]))
     traces, whys = [], []
     for h in hists:
         tr, why = run_history(DESC, h, tmp, ctx.rnd, pool)
